@@ -136,7 +136,9 @@ CLAIMED["C12"] = dict(cat="proof", ref="DESIGN.md §5 C12, §12",
    text="PARTIAL proof. Lean theorems: c12_marked_returned_unchanged (an object carrying the parsed marker is returned as it is and reproduces its named-schema "
         "dictionary, so every operation sees the pair it saw before), c12_name_is_definition_{read,write,validate,skip} (where a schema refers to a type by name "
         "each operation does exactly what it does on the definition held by the dictionary), c12_later_definitions_harmless (further definitions in a shared "
-        "dictionary never change a read or skip). That the raw schema and its pieces fill the dictionary alike, and idempotence for unmarked parsed forms, are "
+        "dictionary never change a read or skip), c12_piece_is_entry (parsing a named-type definition — as a separate piece or inline — leaves the dictionary mapping "
+        "its full name to exactly the parsed definition returned) and c12_piece_then_name (so a later reference by that name is read, written and skipped exactly "
+        "like the definition). That the raw schema and its pieces fill the dictionary alike for the other names, and idempotence for unmarked parsed forms, are "
         "checked on the implementation: raw / parsed / parsed twice / piecewise (random subsets of the named types parsed separately, dependencies first) x "
         "schemaless write+read, validate, canonical form, container write + stand-alone read, JSON write+read, generate_one.",
    note="dictionary-equality clause observed, not proved; known finding F4 (canonical form and container header of a piecewise-parsed schema keep bare names); "
